@@ -291,8 +291,8 @@ func (v *Validators) Create(pubkey types.Pubkey, stake *big.Int) {
 
 	val.setTmAddress()
 
-	v.lock.RLock()
-	defer v.lock.RUnlock()
+	v.lock.Lock()
+	defer v.lock.Unlock()
 	v.list = append(v.list, val)
 }
 
